@@ -1,4 +1,5 @@
-(* GENERATED on every run of ./check C12 by /verif/tools/gensqlmethods (go/ast) from sqlgen/*.go:
+(* SNAPSHOT written by /verif/tools/gensqlmethods (go/ast) from sqlgen/*.go (every run of ./check C12 extracts
+   the table of its own tree into its own directory and checks that one):
    the exported methods of sqlgen.DB.  Do not edit.
    Entry: (method, (reaches a query call, reaches an exec call, begins a transaction)), transitively
    through the functions of package sqlgen (by name). *)
